@@ -52,7 +52,8 @@ type Options struct {
 	// the end values per node (nil where none).
 	ResultOracle func(t TermCtx) []string
 	Observe      func(nw *netrun.Network, p int) map[string]string
-	OnGlobal     func(s *explore.Sys, g *explore.GState, viol func(key, what string))
+	// OnGlobal is evaluated in every reachable global state (all modes) with the records of all nodes.
+	OnGlobal func(s *explore.Sys, locals []*explore.LState, viol func(key, what string, trace []string), trace func() []string)
 }
 
 // TermCtx is what a result oracle sees of a terminal state.
@@ -208,8 +209,7 @@ func secretsOf(nw *netrun.Network, p int) map[string][]byte {
 // property-specific key prefix.
 func Explore(r *core.Run, sc Scenario, opt Options) Stats {
 	var st Stats
-	sys := explore.NewSys(sc.Mk)
-	sys.Observe = func(nw *netrun.Network, p int) map[string]string {
+	sys := explore.NewSysObs(sc.Mk, func(nw *netrun.Network, p int) map[string]string {
 		m := map[string]string{}
 		if opt.C08 {
 			// secret leakage is a property of (state, emitted bytes): evaluate while the live party exists
@@ -228,7 +228,7 @@ func Explore(r *core.Run, sc Scenario, opt Options) Stats {
 			}
 		}
 		return m
-	}
+	})
 	nw0 := sc.Mk()
 	mc := newModelCtx(nw0)
 	pfx := sc.Name
@@ -410,9 +410,14 @@ func Explore(r *core.Run, sc Scenario, opt Options) Stats {
 		OnLocal: onLocal,
 		OnGlobal: func(s *explore.Sys, g *explore.GState) {
 			if opt.OnGlobal != nil {
-				opt.OnGlobal(s, g, func(key, what string) { viol(key, what, nil) })
+				locals := make([]*explore.LState, s.N)
+				for p := range locals {
+					locals[p] = s.Local(g, p)
+				}
+				opt.OnGlobal(s, locals, func(key, what string, tr []string) { viol(key, what, tr) }, func() []string { return explore.TraceStrings(res.Trace(g)) })
 			}
 		}}
+	eo.ResPtr = &res
 	if opt.Mode != "" {
 		return exploreJointModes(r, sc, opt, sys, &st, onLocal, checkMsg, terminal, outcomes)
 	}
@@ -670,6 +675,11 @@ func exploreJointModes(r *core.Run, sc Scenario, opt Options, sys *explore.Sys, 
 	terminal func(s *explore.Sys, locals []*explore.LState, trace []string, live *netrun.Network),
 	outcomes map[string]bool) Stats {
 	sys.RefIDs = true
+	if opt.OnGlobal != nil {
+		sys.OnLiveState = func(locals []*explore.LState, trace []explore.Event) {
+			opt.OnGlobal(sys, locals, func(key, what string, tr []string) { r.Violate(sc.Name+"/"+key, what, tr) }, func() []string { return explore.TraceStrings(trace) })
+		}
+	}
 	step := func(prev, cur *explore.LState, e explore.Event, hist []explore.Event) {
 		if prev != nil {
 			// the monitors want the history of the node only
